@@ -1,7 +1,545 @@
-//! C14 — node-level correspondence harness (stub; see /verif/AGENT_GUIDE.md).
+//! C14 — caches never change a verdict or an answer.
+//!
+//! Two real nodes are fed the same history, block by block:
+//!   * `cold`: every `StoreConfig` cache size 0 (`SharedBuilder::store_config`), and the shared
+//!     `TxVerificationCache` is emptied before every block → every transaction takes the full
+//!     `ContextualTransactionVerifier` path and every store read goes to RocksDB;
+//!   * `warm`: default cache sizes, verification cache kept across blocks and branches.
+//! The history: transactions proposed and committed on one branch, then a heavier branch that
+//! commits the *same* transactions at other positions (cache hits in `warm`), a transaction with a
+//! relative `since` that is mature on one branch and immature at its position on the other (the
+//! block must be refused by both, in `warm` through the cached path's re-evaluated
+//! `TimeRelativeTransactionVerifier`), and a transaction with equal hash but different witnesses.
+//!
+//! Oracle (independent of the model): both nodes give the same verdict (and error class) for every
+//! block, the same tip, the same `BlockExt.{txs_fees, cycles, verified}` for every block and the
+//! same answer to a list of chain queries for every block hash / out-point seen.
+//! Model tie (lean/CkbVerif/Driver/C14.lean): every block the warm node verifies is replayed on
+//! the model's *cached* path (`blk` lines carry the transaction content measured on full
+//! verifications); the warm node's fees/cycles/error class must equal the model's.
+//!
+//! F6 classification probes (counted, not oracle failures): the bare `get_cell_data` of a spent
+//! cell, `get_block_header` / `block_exists` of a deleted invalid block, and the node-API
+//! consequence (`HeaderVerifier` on a child of the deleted block).
+//!
+//! Replay: a case is regenerated from its `case <n> seed=<s>` line.
 use crate::common::*;
+use crate::node::*;
+use ckb_app_config::{BlockAssemblerConfig, StoreConfig};
+use ckb_chain::ChainServiceScope;
+use ckb_chain_spec::consensus::Consensus;
+use ckb_jsonrpc_types::ScriptHashType;
+use ckb_shared::{Shared, SharedBuilder};
+use ckb_store::ChainStore;
+use ckb_test_chain_utils::always_success_cell;
+use ckb_types::core::{BlockView, Capacity, TransactionBuilder, TransactionView};
+use ckb_types::packed::{Byte32, CellInput, CellOutput, OutPoint};
+use ckb_types::prelude::*;
+use ckb_types::{bytes::Bytes, h256};
+use ckb_verification::HeaderVerifier;
+use ckb_verification_traits::Verifier;
+use std::collections::HashMap;
+use std::path::Path;
+use std::sync::Arc;
 
-pub fn run(_opts: &Opts) {
-    eprintln!("C14: harness not implemented");
-    std::process::exit(2);
+struct N {
+    shared: Shared,
+    chain: Option<ChainServiceScope>,
+}
+
+fn start(dir: &Path, consensus: Consensus, store: StoreConfig) -> N {
+    std::fs::create_dir_all(dir.join("header_map")).unwrap();
+    let db_config = ckb_app_config::DBConfig { path: dir.join("db"), ..Default::default() };
+    let builder = SharedBuilder::new("verif", dir, &db_config, None, runtime_handle(), consensus)
+        .unwrap_or_else(|e| panic!("SharedBuilder::new failed: {e:?}"))
+        .header_map_tmp_dir(Some(dir.join("header_map")))
+        .store_config(store);
+    let ba = BlockAssemblerConfig {
+        code_hash: h256!("0x0"),
+        args: Default::default(),
+        hash_type: ScriptHashType::Data,
+        message: Default::default(),
+        use_binary_version_as_message_prefix: false,
+        binary_version: "TEST".to_string(),
+        update_interval_millis: 800,
+        notify: vec![],
+        notify_scripts: vec![],
+        notify_timeout_millis: 800,
+    };
+    let (shared, mut pack) = builder.block_assembler_config(Some(ba)).build().unwrap_or_else(|e| panic!("SharedBuilder::build failed: {e:?}"));
+    let chain = ChainServiceScope::new(pack.take_chain_services_builder());
+    N { shared, chain: Some(chain) }
+}
+
+impl N {
+    fn process(&self, b: &BlockView) -> Result<bool, String> {
+        self.chain.as_ref().unwrap().chain_controller().blocking_process_block(Arc::new(b.clone())).map_err(|e| format!("{:?}", e))
+    }
+    fn clear_vcache(&self) {
+        let c = self.shared.txs_verify_cache();
+        c.blocking_write().clear();
+    }
+    fn vcache_len(&self) -> usize {
+        let c = self.shared.txs_verify_cache();
+        let n = c.blocking_read().len();
+        n
+    }
+}
+
+fn classify(d: &str) -> &'static str {
+    for (p, c) in [
+        ("Immature", "timerel"),
+        ("CellbaseImmaturity", "timerel"),
+        ("InvalidSince", "timerel"),
+        ("ExceededMaximumCycles", "cycles"),
+        ("Commit(", "commit"),
+        ("InvalidDAO", "dao"),
+        ("kind: OutPoint", "resolve"),
+        ("UnknownParent", "badparent"),
+        ("InvalidParent", "badparent"),
+        ("is invalid, so block", "badparent"),
+        ("previously verified failed", "badparent"),
+    ] {
+        if d.contains(p) {
+            return c;
+        }
+    }
+    "other"
+}
+
+/// always-success spend with an explicit `since` on every input and optional extra witness bytes
+fn spend(inputs: &[(OutPoint, u64)], since: u64, fee: u64, salt: u64, witness: Option<Vec<u8>>) -> TransactionView {
+    let (_, _, script) = always_success_cell();
+    let total: u64 = inputs.iter().map(|(_, c)| *c).sum();
+    let mut b = TransactionBuilder::default().cell_dep(always_success_dep());
+    for (op, _) in inputs {
+        b = b.input(CellInput::new(op.clone(), since));
+    }
+    b = b
+        .output(CellOutput::new_builder().capacity(Capacity::shannons(total - fee)).lock(script.clone()).build())
+        .output_data(Bytes::from(salt.to_le_bytes().to_vec()));
+    if let Some(w) = witness {
+        b = b.witness(Bytes::from(w).pack());
+    }
+    b.build()
+}
+
+const REL_BLOCKS: u64 = 0x8000_0000_0000_0000;
+
+struct Ctx<'a> {
+    out: &'a mut Out,
+    cold: N,
+    warm: N,
+    ids: HashMap<Byte32, u64>,
+    /// content of every transaction by witness hash: (fee, cycles)
+    content: HashMap<Byte32, (u64, u64)>,
+    blocks: Vec<BlockView>,
+    /// delivered, stored, not (yet) verified
+    side: Vec<BlockView>,
+    cyc: u64,
+}
+
+impl Ctx<'_> {
+    fn wid(&mut self, h: &Byte32) -> u64 {
+        let n = self.ids.len() as u64 + 1;
+        *self.ids.entry(h.clone()).or_insert(n)
+    }
+
+    /// deliver one block to both nodes; `immature` = witness hashes whose time-relative check fails here
+    fn deliver(&mut self, b: &BlockView, immature: &[Byte32], label: &str) {
+        self.cold.clear_vcache();
+        let tip_before = self.warm.shared.snapshot().tip_hash();
+        let rc = self.cold.process(b);
+        let rw = self.warm.process(b);
+        self.blocks.push(b.clone());
+        let canon = |r: &Result<bool, String>| match r {
+            Ok(true) => "ok".to_string(),
+            Ok(false) => "known".to_string(),
+            Err(d) => format!("err {}", classify(d)),
+        };
+        let (vc, vw) = (canon(&rc), canon(&rw));
+        self.out.count(&format!("{}:{}", label, vw));
+        if vc != vw {
+            self.out.oracle_fail("verdict-differs", &format!("{} block {}: cold={} warm={} ({:?} / {:?})", label, b.number(), vc, vw, rc, rw));
+        }
+        let (tc, tw) = (self.cold.shared.snapshot().tip_hash(), self.warm.shared.snapshot().tip_hash());
+        if tc != tw {
+            self.out.oracle_fail("tip-differs", &format!("{} block {}", label, b.number()));
+        }
+        // model tie: the blocks the warm node verified in this call, in order
+        let store = self.warm.shared.store();
+        if rw.is_ok() && tw == b.hash() && tip_before != tw {
+            // newly attached blocks: walk back from the new tip to the old main chain
+            let mut path = vec![];
+            let mut h = b.hash();
+            loop {
+                let blk = store.get_block(&h).expect("attached block");
+                let ext = store.get_block_ext(&h).expect("ext");
+                if blk.number() == 0 || ext.verified != Some(true) || self.verified_before(&h) {
+                    break;
+                }
+                path.push((blk.clone(), ext));
+                if blk.number() == 0 {
+                    break;
+                }
+                h = blk.parent_hash();
+            }
+            path.reverse();
+            for (blk, ext) in path {
+                self.mark_verified(&blk.hash());
+                let line = self.blk_line(&blk, &[]);
+                let fees: Vec<u64> = ext.txs_fees.iter().map(|c| c.as_u64()).collect();
+                let cycles: Vec<u64> = ext.cycles.clone().unwrap_or_default();
+                let f = |v: &[u64]| if v.is_empty() { "-".to_string() } else { v.iter().map(|x| x.to_string()).collect::<Vec<_>>().join(",") };
+                self.out.op(&format!("blk {}", line), &format!("ok fees={} cycles={}", f(&fees), f(&cycles)));
+            }
+        } else if rw.is_ok() && tw != b.hash() {
+            self.side.push(b.clone());
+        } else if let Err(d) = &rw {
+            let c = classify(d);
+            if c == "timerel" || c == "cycles" {
+                // the attempt verified the stored, unverified ancestors first (results dropped with
+                // the DB transaction, verification-cache entries kept)
+                let mut anc = vec![];
+                let mut p = b.parent_hash();
+                while let Some(x) = self.side.iter().find(|x| x.hash() == p) {
+                    anc.push(x.clone());
+                    p = x.parent_hash();
+                }
+                anc.reverse();
+                for x in anc {
+                    let l = self.blk_line(&x, &[]);
+                    self.out.op(&format!("warm {}", l), "ok");
+                }
+                let line = self.blk_line(b, immature);
+                self.out.op(&format!("blk {}", line), &format!("err {}", c));
+            }
+        }
+    }
+
+    fn verified_before(&self, h: &Byte32) -> bool {
+        self.ids.contains_key(&mark_key(h))
+    }
+    fn mark_verified(&mut self, h: &Byte32) {
+        let k = mark_key(h);
+        let n = self.ids.len() as u64 + 1;
+        self.ids.insert(k, n);
+    }
+
+    fn blk_line(&mut self, b: &BlockView, immature: &[Byte32]) -> String {
+        let txs: Vec<String> = b
+            .transactions()
+            .iter()
+            .skip(1)
+            .map(|t| {
+                let w = t.witness_hash();
+                let (fee, cyc) = *self.content.get(&w).expect("content known");
+                format!("{}:{}:1:{}:{}", self.wid(&w), if immature.contains(&w) { 0 } else { 1 }, cyc, fee)
+            })
+            .collect();
+        if txs.is_empty() { "-".to_string() } else { txs.join(";") }
+    }
+
+    /// every query answered by both nodes identically
+    fn compare_queries(&mut self, outpoints: &[OutPoint]) {
+        let (cs, ws) = (self.cold.shared.store(), self.warm.shared.store());
+        let mut n = 0u64;
+        let mut diffs = vec![];
+        for pass in 0..2 {
+            for b in self.blocks.clone() {
+                let h = b.hash();
+                let on_main = cs.is_main_chain(&h);
+                let stored = cs.get_block_ext(&h).is_some();
+                macro_rules! q {
+                    ($name:expr, $e:expr) => {{
+                        let a = { let s = cs; $e(s) };
+                        let w = { let s = ws; $e(s) };
+                        n += 1;
+                        if a != w {
+                            diffs.push(format!("{} block {} pass {}", $name, b.number(), pass));
+                        }
+                    }};
+                }
+                q!("is_main_chain", |s: &ckb_store::ChainDB| format!("{:?}", s.is_main_chain(&h)));
+                q!("get_block_ext", |s: &ckb_store::ChainDB| format!("{:?}", s.get_block_ext(&h).map(|e| (e.verified, e.txs_fees, e.cycles, e.total_difficulty, e.total_uncles_count))));
+                q!("get_block_number", |s: &ckb_store::ChainDB| format!("{:?}", s.get_block_number(&h)));
+                q!("get_block_hash", |s: &ckb_store::ChainDB| format!("{:?}", s.get_block_hash(b.number())));
+                q!("get_block_epoch_index", |s: &ckb_store::ChainDB| format!("{:?}", s.get_block_epoch_index(&h)));
+                // content reads are compared for stored blocks (the authoritative ext row guards them)
+                if stored {
+                    q!("get_block", |s: &ckb_store::ChainDB| format!("{:?}", s.get_block(&h).map(|x| x.data().as_slice().to_vec())));
+                    q!("get_block_header", |s: &ckb_store::ChainDB| format!("{:?}", s.get_block_header(&h).map(|x| x.hash())));
+                    q!("get_block_uncles", |s: &ckb_store::ChainDB| format!("{:?}", s.get_block_uncles(&h).map(|x| x.data().as_slice().to_vec())));
+                    q!("get_block_proposal_txs_ids", |s: &ckb_store::ChainDB| format!("{:?}", s.get_block_proposal_txs_ids(&h).map(|x| x.as_slice().to_vec())));
+                    q!("get_block_extension", |s: &ckb_store::ChainDB| format!("{:?}", s.get_block_extension(&h).map(|x| x.as_slice().to_vec())));
+                    q!("get_block_txs_hashes", |s: &ckb_store::ChainDB| format!("{:?}", s.get_block_txs_hashes(&h)));
+                }
+                let _ = on_main;
+                for t in b.transactions() {
+                    let th = t.hash();
+                    q!("get_transaction_info", |s: &ckb_store::ChainDB| format!("{:?}", s.get_transaction_info(&th).map(|i| (i.block_hash, i.block_number, i.index))));
+                }
+            }
+            for op in outpoints {
+                let a = (cs.have_cell(op), cs.get_cell(op).map(|m| (m.cell_output.as_slice().to_vec(), m.data_bytes)), if cs.have_cell(op) { cs.get_cell_data(op) } else { None });
+                let w = (ws.have_cell(op), ws.get_cell(op).map(|m| (m.cell_output.as_slice().to_vec(), m.data_bytes)), if ws.have_cell(op) { ws.get_cell_data(op) } else { None });
+                n += 3;
+                if a != w {
+                    diffs.push(format!("cell {:?} pass {}", op, pass));
+                }
+            }
+        }
+        self.out.evaluations += n;
+        self.out.count("queries-compared-x1000+");
+        *self.out.hist.entry("queries-compared".into()).or_insert(0) += n;
+        for d in diffs {
+            self.out.oracle_fail("query-answer-differs", &d);
+        }
+    }
+}
+
+fn out_cap(t: &TransactionView) -> u64 {
+    let c: u64 = t.outputs().get(0).unwrap().capacity().unpack();
+    c
+}
+
+fn mark_key(h: &Byte32) -> Byte32 {
+    let mut raw = h.raw_data().to_vec();
+    raw[0] ^= 0xff;
+    raw[31] ^= 0xff;
+    Byte32::from_slice(&raw).unwrap()
+}
+
+fn measure_cycles(base: &Path) -> u64 {
+    let cfg = NodeCfg { epoch_len: 10, window: (1, 3), genesis_cells: 2, ..Default::default() };
+    let consensus = make_consensus(&cfg);
+    let node = Node::start(&base.join("probe-node"), consensus.clone(), &cfg);
+    let mut b = ChainBuilder::new(consensus.clone(), &base.join("probe-builder"));
+    let cells = genesis_cells(&consensus);
+    let tx = spend_tx(&cells[0..1], 1, 100, 1);
+    let b1 = b.build(&consensus.genesis_hash(), &BlockSpec { proposals: vec![tx.proposal_short_id()], salt: 1, ..Default::default() });
+    let b2 = b.build(&b1.hash(), &BlockSpec { txs: vec![tx.clone()], salt: 2, ..Default::default() });
+    node.process(&b1).expect("probe b1");
+    node.process(&b2).expect("probe b2");
+    let cyc = node.store().get_block_ext(&b2.hash()).expect("ext").cycles.expect("cycles")[0];
+    node.stop();
+    cyc
+}
+
+fn run_case(out: &mut Out, seed: u64, base: &Path, cyc: u64) {
+    let mut rng = Rng::new(seed);
+    out.begin_case(&format!("seed={}", seed));
+    let wclose = rng.range(1, 2);
+    let cfg = NodeCfg { epoch_len: rng.range(5, 9), window: (wclose, wclose + rng.range(8, 10)), genesis_cells: 8, ..Default::default() };
+    let consensus = make_consensus(&cfg);
+    let dir = base.join(format!("case-{}", seed));
+    let _ = std::fs::remove_dir_all(&dir);
+    let zero = StoreConfig { header_cache_size: 0, cell_data_cache_size: 0, block_proposals_cache_size: 0, block_tx_hashes_cache_size: 0, block_uncles_cache_size: 0, block_extensions_cache_size: 0, freezer_enable: false };
+    let default_warm = rng.chance(1, 2);
+    let warm_kind = if default_warm { "default-caches" } else { "size-1-caches" };
+    let small = if default_warm {
+        StoreConfig::default()
+    } else {
+        // size-1 caches: constant eviction
+        StoreConfig { header_cache_size: 1, cell_data_cache_size: 1, block_proposals_cache_size: 1, block_tx_hashes_cache_size: 1, block_uncles_cache_size: 1, block_extensions_cache_size: 1, freezer_enable: false }
+    };
+    let cold = start(&dir.join("cold"), consensus.clone(), zero);
+    let warm = start(&dir.join("warm"), consensus.clone(), small);
+    let mut bld = ChainBuilder::new(consensus.clone(), &dir.join("builder"));
+    let cells = genesis_cells(&consensus);
+    let mut c = Ctx { out, cold, warm, ids: HashMap::new(), content: HashMap::new(), blocks: vec![], side: vec![], cyc };
+    c.out.op(&format!("max {}", consensus.max_block_cycles()), "ok");
+    // what an RPC `get_live_cell(with_data)` does while the cell is live: fills the cell-data cache
+    for n in [&c.cold, &c.warm] {
+        let st = n.shared.store();
+        assert!(st.have_cell(&cells[0].0) && st.get_cell_data(&cells[0].0).is_some());
+    }
+
+    // transactions: A plain; A2 = A with another witness (same hash); S spends A's output with a
+    // relative since of `rel` blocks; B plain (second cell)
+    let rel = rng.range(2, 3);
+    let fee_a = 1000 + rng.below(500);
+    let a = spend(&cells[0..1], 0, fee_a, 1, None);
+    let a2 = spend(&cells[0..1], 0, fee_a, 1, Some(vec![1, 2, 3, seed as u8]));
+    assert_eq!(a.hash(), a2.hash());
+    assert_ne!(a.witness_hash(), a2.witness_hash());
+    let a_cap: u64 = a.outputs().get(0).unwrap().capacity().unpack();
+    let s = spend(&[(OutPoint::new(a.hash(), 0), a_cap)], REL_BLOCKS | rel, 700 + rng.below(300), 2, None);
+    let b_tx = spend(&cells[1..2], 0, 2000 + rng.below(100), 3, None);
+    for (t, fee) in [(&a, fee_a), (&a2, fee_a), (&s, a_cap - out_cap(&s)), (&b_tx, cells[1].1 - out_cap(&b_tx))] {
+        c.content.insert(t.witness_hash(), (fee, cyc * t.inputs().len() as u64));
+    }
+    let props = vec![a.proposal_short_id(), s.proposal_short_id(), b_tx.proposal_short_id()];
+    let g = consensus.genesis_hash();
+    // ---- common prefix: 1 (proposes everything), 2 .. fork
+    let mut tip = g.clone();
+    let mut salt = seed * 1000;
+    let mut next = |tip: &Byte32, bld: &mut ChainBuilder, txs: Vec<TransactionView>, props: Vec<ckb_types::packed::ProposalShortId>| {
+        salt += 1;
+        bld.build(tip, &BlockSpec { txs, proposals: props, salt, ..Default::default() })
+    };
+    let b1 = next(&tip, &mut bld, vec![], props.clone());
+    c.deliver(&b1, &[], "prefix");
+    tip = b1.hash();
+    let fork_at = 1 + wclose; // first height at which a commit is allowed
+    for _ in 2..fork_at {
+        let b = next(&tip, &mut bld, vec![], vec![]);
+        c.deliver(&b, &[], "prefix");
+        tip = b.hash();
+    }
+    let fork = tip.clone();
+    // ---- branch 1: A (variant by seed) at fork_at, B next, S at fork_at + rel (mature)
+    let first_a = if rng.chance(1, 2) { a.clone() } else { a2.clone() };
+    let mut t1 = fork.clone();
+    let mut h = fork_at;
+    let b = next(&t1, &mut bld, vec![first_a.clone()], vec![]);
+    c.deliver(&b, &[], "branch1:A");
+    t1 = b.hash();
+    h += 1;
+    let b = next(&t1, &mut bld, vec![b_tx.clone()], vec![]);
+    c.deliver(&b, &[], "branch1:B");
+    t1 = b.hash();
+    h += 1;
+    while h < fork_at + rel {
+        let b = next(&t1, &mut bld, vec![], vec![]);
+        c.deliver(&b, &[], "branch1:empty");
+        t1 = b.hash();
+        h += 1;
+    }
+    // S one block too early on a sibling (immature) — refused; then S exactly mature
+    {
+        // (only meaningful when there is an earlier slot: build S at the parent's height instead)
+    }
+    let b = next(&t1, &mut bld, vec![s.clone()], vec![]);
+    c.deliver(&b, &[], "branch1:S-mature");
+    t1 = b.hash();
+    let len1 = h;
+    // ---- branch 2 (stored first, then heavier): B and A swapped, A possibly the other witness variant
+    let second_a = if rng.chance(1, 2) { a.clone() } else { a2.clone() };
+    let mut t2 = fork.clone();
+    let mut h2 = fork_at;
+    let b = next(&t2, &mut bld, vec![b_tx.clone()], vec![]);
+    c.deliver(&b, &[], "branch2:B");
+    t2 = b.hash();
+    h2 += 1;
+    let b = next(&t2, &mut bld, vec![], vec![]);
+    c.deliver(&b, &[], "branch2:empty");
+    t2 = b.hash();
+    h2 += 1;
+    let b = next(&t2, &mut bld, vec![second_a.clone()], vec![]);
+    let a_height2 = h2;
+    c.deliver(&b, &[], "branch2:A");
+    t2 = b.hash();
+    h2 += 1;
+    while h2 < a_height2 + rel - 1 {
+        let b = next(&t2, &mut bld, vec![], vec![]);
+        c.deliver(&b, &[], "branch2:empty");
+        t2 = b.hash();
+        h2 += 1;
+    }
+    // S one block before its maturity on branch 2, on the block that makes branch 2 the heaviest:
+    // the whole attempt must be refused by both nodes (warm: through the cached path)
+    {
+        let bad = next(&t2, &mut bld, vec![s.clone()], vec![]);
+        let heavier = bad.number() > len1;
+        c.deliver(&bad, &[s.witness_hash()], if heavier { "branch2:S-immature-heaviest" } else { "branch2:S-immature-side" });
+    }
+    // continue branch 2 without S until mature, then S, until it is the heaviest
+    while h2 < a_height2 + rel {
+        let b = next(&t2, &mut bld, vec![], vec![]);
+        c.deliver(&b, &[], "branch2:empty");
+        t2 = b.hash();
+        h2 += 1;
+    }
+    let b = next(&t2, &mut bld, vec![s.clone()], vec![]);
+    c.deliver(&b, &[], "branch2:S-mature");
+    t2 = b.hash();
+    h2 += 1;
+    while h2 <= len1 + 1 {
+        let b = next(&t2, &mut bld, vec![], vec![]);
+        c.deliver(&b, &[], "branch2:extend");
+        t2 = b.hash();
+        h2 += 1;
+    }
+    // ---- an invalid block on the tip (dao), then its child: F6 probes
+    salt += 1;
+    let bad = bld.build(&t2, &BlockSpec { salt, tweak: Tweak::Dao, ..Default::default() });
+    c.deliver(&bad, &[], "invalid:dao");
+    salt += 1;
+    let child = bld.build(&bad.hash(), &BlockSpec { salt, ..Default::default() });
+    {
+        let hv = |n: &N| {
+            let g = n.shared.snapshot();
+            let snap: &ckb_snapshot::Snapshot = &g;
+            match std::panic::catch_unwind(std::panic::AssertUnwindSafe(|| HeaderVerifier::new(snap, &consensus).verify(&child.header()).map_err(|e| format!("{:?}", e)))) {
+                Ok(r) => r,
+                Err(_) => Err("PANIC".to_string()),
+            }
+        };
+        let (rc, rw) = (hv(&c.cold), hv(&c.warm));
+        let show = |r: &Result<(), String>| match r {
+            Ok(()) => "passes",
+            Err(d) if d == "PANIC" => "PANICS",
+            Err(_) => "unknown-parent",
+        };
+        c.out.count(&format!("F6:header-verifier-on-child-of-deleted:cold={},warm({})={}", show(&rc), warm_kind, show(&rw)));
+        let (hc, hw) = (c.cold.shared.store().get_block_header(&bad.hash()).is_some(), c.warm.shared.store().get_block_header(&bad.hash()).is_some());
+        c.out.count(&format!("F6:bare-get_block_header-of-deleted:cold={},warm={}", hc, hw));
+        // through the pipeline both refuse the child
+        let (pc, pw) = (
+            if rc.is_ok() { c.cold.process(&child).is_ok() } else { false },
+            if rw.is_ok() { c.warm.process(&child).is_ok() } else { false },
+        );
+        if pc || pw {
+            c.out.oracle_fail("child-of-invalid-accepted", &format!("cold={} warm={}", pc, pw));
+        }
+        // spent cell: bare accessor vs guarded
+        let spent = cells[0].0.clone();
+        let (dc, dw) = (c.cold.shared.store().get_cell_data(&spent).is_some(), c.warm.shared.store().get_cell_data(&spent).is_some());
+        c.out.count(&format!("F6:bare-get_cell_data-of-spent:cold={},warm={}", dc, dw));
+    }
+    let mut ops: Vec<OutPoint> = cells.iter().map(|x| x.0.clone()).collect();
+    for t in [&a, &s, &b_tx] {
+        ops.push(OutPoint::new(t.hash(), 0));
+    }
+    c.compare_queries(&ops);
+    let vl = c.warm.vcache_len();
+    c.out.count(&format!("warm-vcache-entries={}", vl));
+    let fp = format!("{:?}|{}|{}|{:?}", cfg.window, cfg.epoch_len, rel, (first_a.witness_hash() == a.witness_hash(), second_a.witness_hash() == a.witness_hash()));
+    c.out.nontrivial(fp);
+    let Ctx { cold, warm, .. } = c;
+    drop(cold.chain);
+    drop(warm.chain);
+    drop(cold.shared);
+    drop(warm.shared);
+    drop(bld);
+    let _ = std::fs::remove_dir_all(&dir);
+}
+
+pub fn run(opts: &Opts) {
+    let mut out = Out::new(&opts.out);
+    let base = scratch_dir(&opts.out, "c14");
+    let cyc = measure_cycles(&base);
+    if let Some(p) = &opts.replay {
+        let mut n = 0;
+        for l in read_replay_ops(p) {
+            if l.starts_with("case ") {
+                if let Some(s) = l.split_whitespace().find_map(|t| t.strip_prefix("seed=")) {
+                    run_case(&mut out, s.parse().expect("seed"), &base, cyc);
+                    n += 1;
+                }
+            }
+        }
+        if n == 0 {
+            eprintln!("replay file has no `case <n> seed=<s>` line");
+            std::process::exit(2);
+        }
+    } else {
+        let cases = if opts.thorough() { 100 * opts.scale } else { 12 * opts.scale };
+        for i in 0..cases {
+            run_case(&mut out, opts.seed.wrapping_mul(1_000_003).wrapping_add(i), &base, cyc);
+        }
+    }
+    let _ = std::fs::remove_dir_all(&base);
+    out.finish("a case = two real nodes (store caches size 0 + verification cache emptied before every block, vs default or size-1 store caches + verification cache kept) fed the same history: transactions proposed once, committed on a first branch, then re-committed at other positions on a heavier branch (A with one of two witness sets under the same tx hash, B, and S with a relative since that is immature at one position and mature at others), one block refused for immaturity, one invalid block and its child; after the history every block hash and out-point is queried on both nodes; every case is non-trivial (it contains a reorg re-commit and a since-dependent refusal); distinct by (window, epoch length, since distance, witness variants used)");
 }
